@@ -14,6 +14,7 @@ import (
 	"encoding/hex"
 	"errors"
 	"fmt"
+	"io"
 	"sync"
 	"testing"
 
@@ -120,13 +121,17 @@ type hcase struct {
 	Msgs             [][2][]byte // (pt, aad)
 	Exps             []expReq
 	Negs             []string
-	NegSel           byte // selects how a parameter is altered / which other mode is used
+	NegSel           byte   // selects how a parameter is altered / which other mode is used
+	EncBit           int    // bit of enc flipped by the "enc" negative relation (reduced mod 8*len(enc))
+	Rd               string // how the io.Reader hands out the encapsulation randomness: whole, one, half, chunks
+	RdSeed           uint64
 	Src              string
 }
 
 func (c *hcase) String() string {
 	s := fmt.Sprintf("kem=%#04x kdf=%d aead=%d mode=%s ikmR=%x ikmS=%x ikmE=%x ikmO=%x info=%s psk=%s psk_id=%s negs=%v negsel=%d",
 		c.S.KEM, c.S.KDF, c.S.AEAD, modeName[c.Mode], c.IkmR, c.IkmS, c.IkmE, c.IkmO, hx(c.Info), hx(c.Psk), hx(c.PskID), c.Negs, c.NegSel)
+	s += fmt.Sprintf(" encbit=%d reader=%s/%d", c.EncBit, c.Rd, c.RdSeed)
 	for _, m := range c.Msgs {
 		s += fmt.Sprintf(" msg(pt=%d B, aad=%d B)", len(m[0]), len(m[1]))
 	}
@@ -142,7 +147,7 @@ func (c *hcase) replay() map[string]interface{} {
 }
 
 func (c *hcase) hashParts() [][]byte {
-	p := [][]byte{{byte(c.S.KEM >> 8), byte(c.S.KEM), byte(c.S.KDF), byte(c.S.AEAD), byte(c.Mode), c.NegSel}, c.IkmR, c.IkmS, c.IkmE, c.IkmO, c.Info, c.Psk, c.PskID}
+	p := [][]byte{{byte(c.S.KEM >> 8), byte(c.S.KEM), byte(c.S.KDF), byte(c.S.AEAD), byte(c.Mode), c.NegSel, byte(c.EncBit), byte(c.EncBit >> 8), byte(c.RdSeed)}, []byte(c.Rd), c.IkmR, c.IkmS, c.IkmE, c.IkmO, c.Info, c.Psk, c.PskID}
 	for _, n := range c.Negs {
 		p = append(p, []byte(n))
 	}
@@ -163,13 +168,59 @@ func mb(v interface{ MarshalBinary() ([]byte, error) }) []byte {
 	return b
 }
 
+// shortReader is an io.Reader over data that returns short reads (n < len(p), nil error), as the io.Reader
+// contract allows (pipes, network sources, iotest.OneByteReader / HalfReader): one byte per call, half of the
+// request, or pseudo-random chunk sizes. The randomness consumed by Setup must not depend on the chunking.
+type shortReader struct {
+	data  []byte
+	style string
+	seed  uint64
+	calls uint64
+}
+
+func (r *shortReader) Read(p []byte) (int, error) {
+	if len(p) == 0 {
+		return 0, nil
+	}
+	if len(r.data) == 0 {
+		return 0, io.EOF
+	}
+	n := len(p)
+	switch r.style {
+	case "one":
+		n = 1
+	case "half":
+		n = (len(p) + 1) / 2
+	case "chunks":
+		r.calls++
+		n = 1 + int(vlib.Hash64([]byte{byte(r.seed), byte(r.seed >> 8), byte(r.calls), byte(r.calls >> 8)})%uint64(len(p)))
+	}
+	if n > len(r.data) {
+		n = len(r.data)
+	}
+	copy(p, r.data[:n])
+	r.data = r.data[n:]
+	return n, nil
+}
+
+func newReader(eseed []byte, style string, seed uint64) io.Reader {
+	if style == "" || style == "whole" {
+		return bytes.NewReader(eseed)
+	}
+	return &shortReader{data: append([]byte{}, eseed...), style: style, seed: seed}
+}
+
 // senderSetup runs the Setup function of the mode on a fresh circl Sender.
 func senderSetup(cs hpke.Suite, mode int, pkR kem.PublicKey, info, psk, pskID []byte, skS kem.PrivateKey, eseed []byte) (enc []byte, sl hpke.Sealer, err error) {
+	return senderSetupRd(cs, mode, pkR, info, psk, pskID, skS, bytes.NewReader(eseed))
+}
+
+// senderSetupRd is senderSetup with the randomness coming from rd.
+func senderSetupRd(cs hpke.Suite, mode int, pkR kem.PublicKey, info, psk, pskID []byte, skS kem.PrivateKey, rd io.Reader) (enc []byte, sl hpke.Sealer, err error) {
 	snd, err := cs.NewSender(pkR, info)
 	if err != nil {
 		return nil, nil, err
 	}
-	rd := bytes.NewReader(eseed)
 	switch mode {
 	case rhpke.ModeBase:
 		return snd.Setup(rd)
@@ -310,7 +361,8 @@ func evalCase(c *hcase, rep reporter) bool {
 	if err != nil {
 		panic(fmt.Sprintf("reference SetupS failed on a valid case: %v (%s)", err, c))
 	}
-	enc, sealer, err := senderSetup(cs, c.Mode, pkR, c.Info, c.Psk, c.PskID, skS, c.IkmE)
+	vlib.Class(sub, "reader="+map[bool]string{true: "whole", false: c.Rd}[c.Rd == ""])
+	enc, sealer, err := senderSetupRd(cs, c.Mode, pkR, c.Info, c.Psk, c.PskID, skS, newReader(c.IkmE, c.Rd, c.RdSeed))
 	if err != nil && isPSK(c.Mode) && len(c.Psk) < 32 {
 		// RFC 9180 section 5.1.2 wants a PSK of at least 32 bytes of entropy; the pseudo-code does not enforce a
 		// length and neither does circl, but an implementation that refuses a shorter PSK is not wrong: only counted.
@@ -408,6 +460,7 @@ func evalCase(c *hcase, rep reporter) bool {
 		nMode, nSkR, nrSkR := c.Mode, skR, rskR
 		nInfo, nPsk, nPskID := c.Info, c.Psk, c.PskID
 		nPkS, nrPkS := pkS, rpkS
+		nEnc := enc
 		switch neg {
 		case "skR":
 			nSkR, nrSkR = skO, rskO
@@ -419,6 +472,12 @@ func evalCase(c *hcase, rep reporter) bool {
 			nPskID = alter(c.PskID, c.NegSel)
 		case "pkS":
 			nPkS, nrPkS = pkO, rpkO
+		case "enc":
+			// one flipped bit of the encapsulated key; what the receiver must derive from it (an error, or the
+			// key schedule of another shared secret) is decided by the reference, not by a rule of thumb
+			nEnc = append([]byte{}, enc...)
+			b := c.EncBit % (8 * len(nEnc))
+			nEnc[b/8] ^= 1 << (b % 8)
 		case "mode":
 			var cand []int
 			switch c.Mode {
@@ -456,8 +515,8 @@ func evalCase(c *hcase, rep reporter) bool {
 		if neg == "mode" {
 			desc += "=" + modeName[nMode]
 		}
-		bad, err := receiverSetup(cs, nMode, nSkR, enc, nInfo, nPsk, nPskID, nPkS)
-		rbad, rerr := rhpke.SetupR(c.S, nMode, enc, nrSkR, nInfo, nPsk, nPskID, nrPkS)
+		bad, err := receiverSetup(cs, nMode, nSkR, nEnc, nInfo, nPsk, nPskID, nPkS)
+		rbad, rerr := rhpke.SetupR(c.S, nMode, nEnc, nrSkR, nInfo, nPsk, nPskID, nrPkS)
 		if (err == nil) != (rerr == nil) {
 			return rep("C07/negative/"+neg+"/setup-verdict", fmt.Sprintf("%s: circl err=%v, reference err=%v; case %s", desc, err, rerr, c))
 		}
@@ -598,12 +657,26 @@ func drawCase(t *rapid.T, kemID uint16) *hcase {
 		c.Negs = append(c.Negs, rapid.SampledFrom(avail).Draw(t, "neg2"))
 	}
 	c.NegSel = rapid.Byte().Draw(t, "negsel")
+	nenc := 8 * rhpke.KEMByID(kemID).Nenc
+	switch rapid.IntRange(0, 3).Draw(t, "encbitKind") {
+	case 0:
+		c.EncBit = nenc - 1 // top bit of the last byte
+	case 1:
+		c.EncBit = rapid.SampledFrom([]int{0, 7, 8, 255, 256, nenc - 8, nenc - 256, nenc - 249}).Draw(t, "encbitEdge")
+		if c.EncBit < 0 {
+			c.EncBit = 0
+		}
+	default:
+		c.EncBit = rapid.IntRange(0, nenc-1).Draw(t, "encbit")
+	}
+	c.Rd = rapid.SampledFrom([]string{"whole", "one", "half", "chunks"}).Draw(t, "reader")
+	c.RdSeed = uint64(rapid.Uint16().Draw(t, "readerSeed"))
 	fixOther(c)
 	return c
 }
 
 func negKinds(mode int) []string {
-	k := []string{"skR", "info", "mode"}
+	k := []string{"skR", "info", "mode", "enc"}
 	if isPSK(mode) {
 		k = append(k, "psk", "psk_id")
 	}
@@ -658,6 +731,9 @@ func sweepCase(s rhpke.Suite, mode int, j int) *hcase {
 	c.Exps = []expReq{{Ctx: fill(int(sel[6]) % 64), L: []int{0, 1, nh, 255 * nh}[(int(sel[7])+j)%4]}, {Ctx: nil, L: nh}}
 	c.Negs = negKinds(mode)
 	c.NegSel = sel[1]
+	c.EncBit = 8*rhpke.KEMByID(s.KEM).Nenc - 1 - (int(sel[2])%3)*(int(sel[3])+1)
+	c.Rd = []string{"whole", "one", "half", "chunks"}[(int(sel[5])+j+mode)%4]
+	c.RdSeed = uint64(sel[6])
 	fixOther(c)
 	return c
 }
